@@ -109,7 +109,7 @@ var checks = map[string]*checkDef{
 		plan: []planItem{
 			{workload: "C15", variant: "plain", quick: 2400, thorough: 200000},
 			{workload: "C15C", variant: "instrw", quick: 1200, thorough: 60000},
-			{workload: "C15C", variant: "instrc", quick: 600, thorough: 20000},
+			{workload: "C15C", variant: "instrc", quick: 1500, thorough: 30000},
 			{workload: "C15", variant: "purego", quick: 320, thorough: 15000},
 			{workload: "C15", variant: "noavx2", quick: 320, thorough: 15000},
 			{workload: "C15", variant: "force32bit", quick: 240, thorough: 8000},
